@@ -134,6 +134,23 @@ let () =
               | Some bb -> Printf.sprintf "types=%s x=%s y=%s z=%s m=%s" types (show_range bb.Model.bb_x) (show_range bb.Model.bb_y)
                              (tok_of_opt show_range bb.Model.bb_z) (tok_of_opt show_range bb.Model.bb_m)))
     | _ -> failwith "c17.geostats args");
+  (* c17.bloomloc reset bits history rgs -> the bloom filter locations off:len recorded for the
+     row groups rgs of a life that follows the row groups of history and a reset
+     (Reset/BloomLoc.v).  A row group is off:b<n> (built by the column writer from n values) or
+     off:c<len> (copied verbatim with a filter of len bytes); reset = current | pinned *)
+  register "c17.bloomloc" (function
+    | [which; bits; hist; rgs] ->
+        let rg s = match String.split_on_char ':' s with
+          | [off; o] when String.length o > 1 ->
+              let v = n_of_hex (String.sub o 1 (String.length o - 1)) in
+              (n_of_hex off, (if o.[0] = 'c' then Model.Copied v else Model.Built v))
+          | _ -> failwith ("row group: " ^ s) in
+        let rs = if which = "pinned" then Model.breset_pinned else Model.breset in
+        let bits = n_of_hex bits in
+        let (_, s) = Model.blife rs bits Model.bnew (list_of_tok rg hist) in
+        let (locs, _) = Model.blife rs bits (rs s) (list_of_tok rg rgs) in
+        tok_of_list (fun (o, l) -> hex_of_n o ^ ":" ^ hex_of_n l) locs
+    | _ -> failwith "c17.bloomloc args");
   register "c17.classify" (function
     | [s; f] -> ocaml_string (Model.classify_name (coq_string s) (coq_string f))
     | _ -> failwith "c17.classify args")
